@@ -5,6 +5,7 @@
 //  file LICENSE_1_0.txt or copy at http://www.boost.org/LICENSE_1_0.txt)
 
 #include <pika/config.hpp>
+#include <pika/config/verif_hooks.hpp>
 #include <pika/assert.hpp>
 #include <pika/execution_base/this_thread.hpp>
 #include <pika/threading_base/scheduler_base.hpp>
@@ -111,6 +112,7 @@ namespace pika::threads::detail {
         PIKA_ASSERT(num_thread < suspend_conds_.size());
 
         states_[num_thread].store(runtime_state::sleeping);
+        PIKA_VERIF_POINT(::pika::verif::pu_suspend, this, num_thread);
         std::unique_lock<pu_mutex_type> l(suspend_mtxs_[num_thread]);
         suspend_conds_[num_thread].wait(l);
 
@@ -126,6 +128,7 @@ namespace pika::threads::detail {
 
     void scheduler_base::resume(std::size_t num_thread)
     {
+        PIKA_VERIF_POINT(::pika::verif::pu_resume, this, num_thread);
         if (num_thread == std::size_t(-1))
         {
             for (std::condition_variable& c : suspend_conds_) { c.notify_one(); }
@@ -140,6 +143,7 @@ namespace pika::threads::detail {
     std::size_t scheduler_base::select_active_pu(
         std::unique_lock<pu_mutex_type>& l, std::size_t num_thread, bool allow_fallback)
     {
+        PIKA_VERIF_POINT(::pika::verif::select_active_pu, this, num_thread, allow_fallback ? 1 : 0);
         if (has_scheduler_mode(threads::scheduler_mode::enable_elasticity))
         {
             std::size_t states_size = states_.size();
